@@ -64,32 +64,58 @@ def first_label(op):
     return "exists" if op[0] == "get" else "lock"
 
 
+def _mk_frame(rows):
+    import pandas as pd
+    return pd.DataFrame([r for _, r in rows], columns=["a", "b"], index=[i for i, _ in rows])
+
+
+def _frame_rows(df):
+    return [[int(i), [int(x) for x in r]] for i, r in zip(df.index.tolist(), df.values.tolist())]
+
+
 class Exec:
     """result of one schedule on the real FileCache"""
     pass
+
+
+_COUNTER = [0]
 
 
 def execute(scn, prefix, base, step_budget=300):
     """run scenario `scn` on the real FileCache following the choice list `prefix`
     (then: keep running the previous thread if it is enabled, else the first enabled one)"""
     import klongpy.db.file_cache as fcm
-    root = os.path.join(base, "r")
+    _COUNTER[0] += 1
+    root = os.path.join(base, f"r{_COUNTER[0]}")       # never reused: a leaked thread of an aborted run cannot touch it
     shutil.rmtree(root, ignore_errors=True)
     os.makedirs(root)
     for n, hx in scn["files"].items():
         with open(os.path.join(root, n), "wb") as f:
             f.write(bytes.fromhex(hx))
+    if scn.get("df"):
+        from klongpy.db.helpers import serialize_df
+        for n, rows in scn.get("frames", {}).items():
+            with open(os.path.join(root, n), "wb") as f:
+                f.write(serialize_df(_mk_frame(rows)))
     sched = S.Sched(step_budget=step_budget)
     saved = {k: fcm.__dict__.get(k, None) for k in ("open", "os", "time")}
     had_open = "open" in fcm.__dict__
     ex = Exec()
     ex.hist = []
     fc = None
+    saved_df = None
     try:
         fcm.open = S.make_open(sched, open)
         fcm.os = S.OsProxy(sched, os)
         fcm.time = S.Clock()
-        fc = fcm.FileCache(max_memory=scn["max"], root_path=root)
+        if scn.get("df"):
+            import threading as _thr
+            import klongpy.db.df_cache as dfm
+            saved_df = (dfm, dfm.threading)
+            dfm.threading = S.ThreadingProxy(sched, _thr)
+            fc = dfm.PandasDataFrameCache(max_memory=scn["max"], root_path=root)
+        else:
+            fc = fcm.FileCache(max_memory=scn["max"], root_path=root)
         try:
             fc.executor.shutdown(wait=False)
         except Exception:
@@ -122,6 +148,8 @@ def execute(scn, prefix, base, step_budget=300):
                         elif op[0] == "unload":
                             fc.unload_file(op[1])
                             res = ["done"]
+                        elif op[0] == "dfupdate":
+                            res = ["frame", _frame_rows(fc.update(op[1], _mk_frame(op[2])))]
                         else:
                             raise ValueError(op)
                     except S.SchedAbort:
@@ -156,11 +184,14 @@ def execute(scn, prefix, base, step_budget=300):
                 return default(i, en, prev)
             status = sched.run(chooser)
         ex.status = status
+        if status in ("hang", "bad-choice"):
+            raise S.HarnessGlitch(f"{status}: {sched.diag}")
         ex.trace = sched.trace
         ex.crashes = [f"{t.tid}: {t.crash!r}" for t in sched.threads.values() if t.crash is not None]
         # ---- final state
         ex.futures = [dict(fid=f.fid, name=f.name, kind=f.kind, done=f.done(),
-                           value=(bytes(f.value).hex() if f.value is not None and f.exc is None else None),
+                           value=((bytes(f.value).hex() if not scn.get("df") else "frame")
+                                  if f.value is not None and f.exc is None else None),
                            exc=(type(f.exc).__name__ if f.exc is not None else None),
                            data=(f.data.hex() if f.data is not None else None))
                       for f in fc.executor.futures]
@@ -171,9 +202,16 @@ def execute(scn, prefix, base, step_budget=300):
         ex.disk = {}
         for n in sorted(os.listdir(root)):
             with open(os.path.join(root, n), "rb") as f:
-                ex.disk[n] = f.read().hex()
+                raw = f.read()
+            if scn.get("df"):
+                from klongpy.db.helpers import deserialize_df
+                ex.disk[n] = _frame_rows(deserialize_df(raw)) if raw else []
+            else:
+                ex.disk[n] = raw.hex()
     finally:
         ex.leaked = sched.shutdown()
+        if saved_df is not None:
+            saved_df[0].threading = saved_df[1]
         for k, v in saved.items():
             if k == "open" and not had_open:
                 fcm.__dict__.pop("open", None)
@@ -339,6 +377,72 @@ def oracle(ex, scn):
     return fails
 
 
+def oracle_df(ex, scn):
+    """PandasDataFrameCache.update under concurrency: every call returns, and the returned frames and
+    the stored table are those of applying the merges one after the other in some order that
+    respects real time (existing rows win, sorted by index); accounting as for the base class"""
+    fails = []
+    if ex.crashes:
+        raise common.Infra("harness thread crashed: " + "; ".join(ex.crashes))
+    if ex.status != "ok":
+        return [("df:no-return:" + ex.status, "every call returns", f"scheduler status {ex.status}")]
+    for h in ex.hist:
+        if h["res"][0] == "raises":
+            fails.append(("df:raises:" + h["res"][1], "every call returns a value", f"{h['tid']} {h['op'][:2]} raised"))
+
+    def merge(state, rows):
+        d = dict((i, r) for i, r in state)
+        for i, r in rows:
+            d.setdefault(i, r)
+        return [[i, d[i]] for i in sorted(d)]
+
+    for n in sorted({h["op"][1] for h in ex.hist}):
+        ops = [h for h in ex.hist if h["op"][1] == n and h["op"][0] == "dfupdate" and h["res"][0] == "frame"]
+        init = merge([], scn.get("frames", {}).get(n, []))
+        ok = False
+        for perm in itertools.permutations(range(len(ops))):
+            if any(ops[perm[b]]["resp"] < ops[perm[a]]["inv"] for a in range(len(perm)) for b in range(a + 1, len(perm))):
+                continue
+            st, good = init, True
+            for k in perm:
+                st = merge(st, ops[k]["op"][2])
+                if ops[k]["res"][1] != st:
+                    good = False
+                    break
+            if good and ex.disk.get(n, []) == st:
+                ok = True
+                break
+        if not ok:
+            fails.append(("df:merge", f"table {n} = the merges applied in some real-time-consistent order",
+                          dict(disk=ex.disk.get(n), returned=[[h["tid"], h["res"][1]] for h in ops])))
+    tot = 0
+    for n, e in sorted(ex.entries.items()):
+        tot += e["size"]
+        if e["writing"]:
+            fails.append(("df:final-cache", f"entry {n} not writing", "writing=True"))
+    if ex.mem != tot:
+        fails.append(("df:accounting", f"current_memory_usage == sum(entries) == {tot}", f"{ex.mem}"))
+    for f in ex.futures:
+        if not f["done"]:
+            fails.append(("df:no-return:task", "every task completes", f"task {f['fid']} not done"))
+    return fails
+
+
+def df_scenarios():
+    A = [[1, [10, 11]], [3, [30, 31]]]
+    B = [[2, [20, 21]], [3, [99, 99]]]
+    C = [[0, [5, 6]]]
+    mk = lambda threads, frames=None, setup=None: dict(df=True, max=2 ** 20, files={}, frames=frames or {},
+                                                       setup=setup or [], threads=threads)
+    return [
+        ("df:update||update:new", mk([[["dfupdate", "t", A]], [["dfupdate", "t", B]]])),
+        ("df:update||update:stored", mk([[["dfupdate", "t", A]], [["dfupdate", "t", B]]], frames={"t": C})),
+        ("df:update||update:cached", mk([[["dfupdate", "t", A]], [["dfupdate", "t", B]]], frames={"t": C},
+                                        setup=[["dfupdate", "t", [[7, [70, 71]]]]])),
+        ("df:update;update||update:two-files", mk([[["dfupdate", "t", A], ["dfupdate", "u", C]], [["dfupdate", "u", B]]])),
+    ]
+
+
 # --------------------------------------------------------------------------- enumeration
 
 def preemptions(trace, start):
@@ -451,3 +555,303 @@ def compare_model(scn, ex, reply):
     if ex.status == "ok" and f.get("final", "") != "":
         return f"machine still has enabled steps at the end: {f.get('final')}"
     return None
+
+
+# --------------------------------------------------------------------------- scenarios
+
+OLD, NEW6, XY = b"OLD".hex(), b"NEWNEW".hex(), b"XY".hex()
+
+
+def core_scenarios():
+    """fixed scenarios run on every check: the witnesses of the known findings and the basic
+    hazard-free races (two writers, writer vs reader of a cached file, eviction, new file)"""
+    S1 = lambda threads, **kw: dict(max=kw.get("max", 64), files=kw.get("files", {"f": OLD}),
+                                    setup=kw.get("setup", []), threads=threads)
+    return [
+        ("get-miss||update", S1([[["get", "f"]], [["update", "f", NEW6, 0]]])),
+        ("get-miss||update||update", S1([[["get", "f"]], [["update", "f", NEW6, 0]], [["update", "f", XY, 0]]])),
+        ("get-miss||unload", S1([[["get", "f"]], [["unload", "f"]]])),
+        ("update||unload", S1([[["update", "f", NEW6, 0]], [["unload", "f"]]])),
+        ("update||update", S1([[["update", "f", NEW6, 0]], [["update", "f", XY, 1]]])),
+        ("update||update||get", S1([[["update", "f", NEW6, 0]], [["update", "f", XY, 0]], [["get", "f"]]],
+                                   setup=[["get", "f"]])),
+        ("cached:update||get", S1([[["update", "f", NEW6, 0]], [["get", "f"]]], setup=[["get", "f"]])),
+        ("cached:update;get||get;unload", S1([[["update", "f", NEW6, 1], ["get", "f"]], [["get", "f"], ["unload", "f"]]],
+                                             setup=[["get", "f"]])),
+        ("get||get", S1([[["get", "f"]], [["get", "f"]]])),
+        ("get||get||unload-other", S1([[["get", "f"]], [["get", "f"]], [["get", "g"], ["unload", "g"]]],
+                                      files={"f": OLD, "g": XY})),
+        ("evict:update-g||get-f", S1([[["update", "g", NEW6, 0]], [["get", "f"]]], max=6,
+                                     files={"f": OLD, "g": XY}, setup=[["get", "f"]])),
+        ("evict:get-g||get-f||update-f", S1([[["get", "g"]], [["get", "f"]], [["update", "f", b"ABCD".hex(), 0]]], max=5,
+                                            files={"f": OLD, "g": XY}, setup=[["get", "f"]])),
+        ("newfile:update||get", S1([[["update", "f", NEW6, 0]], [["get", "f"]]], files={})),
+        ("oversize-file:get||update", S1([[["get", "f"]], [["update", "f", XY, 0]]], max=4,
+                                         files={"f": b"TOOLARGE".hex()})),
+        ("cached:unload||get||update-other", S1([[["unload", "f"]], [["get", "f"]], [["update", "g", NEW6, 0]]],
+                                                files={"f": OLD, "g": XY}, setup=[["get", "f"]])),
+    ]
+
+
+def random_scenario(rng, nthreads=None):
+    names = ["f"] if rng.random() < 0.5 else ["f", "g"]
+    maxmem = rng.choice([64, 64, 64, 6, 8])
+    pool = [OLD, XY, b"".hex(), b"ABCDE".hex()]
+    files = {n: rng.choice(pool) for n in names if rng.random() < 0.85}
+    if rng.random() < 0.06 and files:
+        files[rng.choice(sorted(files))] = b"TOOLARGE!".hex()      # larger than every limit below 64
+    uid = [0]
+
+    def mkop():
+        n = rng.choice(names)
+        r = rng.random()
+        if r < 0.40:
+            return ["get", n]
+        if r < 0.80:
+            uid[0] += 1
+            ln = rng.choice([1, 2, 3, 4, 6])
+            ln = min(ln, maxmem)
+            data = (chr(ord("a") + uid[0]) * ln).encode().hex()
+            return ["update", n, data, 1 if rng.random() < 0.25 else 0]
+        return ["unload", n]
+
+    setup = []
+    if rng.random() < 0.55:
+        setup = [mkop() for _ in range(rng.choice([1, 1, 2]))]
+    nt = nthreads or rng.choice([2, 2, 3])
+    threads = [[mkop() for _ in range(rng.choice([1, 1, 2]))] for _ in range(nt)]
+    return dict(max=maxmem, files=files, setup=setup, threads=threads)
+
+
+def pair_scenarios():
+    """all two-thread / one-op-each scenarios on one file, cache cold and warm, file present and absent"""
+    ops = [["get", "f"], ["update", "f", NEW6, 0], ["unload", "f"]]
+    out = []
+    for a, b in itertools.combinations_with_replacement(range(3), 2):
+        for files in ({"f": OLD}, {}):
+            for setup in ([], [["get", "f"]], [["update", "f", XY, 0]]):
+                if not files and setup and setup[0][0] == "get":
+                    continue
+                oa, ob = list(ops[a]), list(ops[b])
+                if oa[0] == "update" and ob[0] == "update":
+                    ob[2] = b"second".hex()
+                out.append((f"pair:{oa[0]}||{ob[0]}:{'warm' if setup else 'cold'}:{'file' if files else 'nofile'}",
+                            dict(max=64, files=files, setup=setup, threads=[[oa], [ob]])))
+    return out
+
+
+# --------------------------------------------------------------------------- per-scenario work (runs in a worker process)
+
+_W = {}
+
+
+def _winit(base):
+    import logging
+    logging.disable(logging.WARNING)       # klongpy logs "unable to recover memory" in corrupted (hazard) runs
+    import threading
+    S._Worker.idle = []                    # OS threads do not survive fork
+    S._Worker.guard = threading.Lock()     # ... and a lock held by one of them at fork time would stay held
+    _W["base"] = os.path.join(base, f"w{os.getpid()}")
+    os.makedirs(_W["base"], exist_ok=True)
+    try:
+        _W["drv"] = Driver("c18")
+    except Exception:
+        _W["drv"] = None
+
+
+def check_execution(scn, ex, choices, drv, out):
+    """oracle + classification + tie for one run; appends to the result dict `out`"""
+    case = dict(kind="schedule", scenario=scn, choices=choices)
+    if scn.get("df"):           # table-merge layer: oracle only (pickled frames are outside the machine)
+        fails = oracle_df(ex, scn)
+        out["n"] += 1
+        out["hist"]["class:df-append-lock"] += 1
+        if fails:
+            clause, expected, observed = fails[0]
+            out["hist"]["fail:conc:safe:" + clause] += 1
+            if not any(f[0] == "conc:safe:" + clause for f in out["fails"]):
+                out["fails"].append(("conc:safe:" + clause, case, expected, observed, ", ".join(sorted({f[0] for f in fails}))))
+        return
+    hz = hazards(ex, scn)
+    fails = oracle(ex, scn)
+    out["n"] += 1
+    out["hist"]["steps:" + str(min(len(ex.trace) // 5 * 5, 60))] += 1
+    out["hist"]["preemptions:" + str(preemptions(ex.trace, ex.setup_steps))] += 1
+    out["hist"]["class:" + (hz[0][1] if hz else "hazard-free")] += 1
+    for h in ex.hist:
+        out["hist"]["result:" + h["op"][0] + ":" + h["res"][0]] += 1
+    if fails:
+        clause, expected, observed = fails[0]
+        key = hz[0][1] if hz else "conc:safe:" + clause
+        out["hist"]["fail:" + key + ":" + clause] += 1
+        if len(out["fails"]) < 40 and not any(f[0] == key for f in out["fails"]):
+            out["fails"].append((key, case, expected, observed,
+                                 f"{len(fails)} clause(s) fail: " + ", ".join(sorted({f[0] for f in fails}))))
+    # ---- tie
+    if drv is not None:
+        if any(st.get("exc") == "KeyError" for st in ex.trace):
+            out["hist"]["tie:skipped-keyerror"] += 1
+        else:
+            rep = drv.ask(model_line(scn, ex))
+            d = compare_model(scn, ex, rep)
+            f = fields(rep)
+            if d is None and ex.status == "ok":
+                if (f.get("safe") == "1") != (not hz):
+                    d = f"hazard classification: machine safe={f.get('safe')} harness hazards={hz}"
+                elif f.get("quiescent") != "1":
+                    d = "machine not quiescent at the end of a complete run"
+                elif f.get("safe") == "1" and fails:
+                    d = "machine accepts the run as hazard-free but the oracle fails on the real code"
+            if d is not None and len(out["mismatches"]) < 5:
+                out["mismatches"].append((case, d[:600]))
+            out["hist"]["tie:" + ("agree" if d is None else "DISAGREE")] += 1
+
+
+def work(args):
+    import collections
+    name, scn, bound, cap = args
+    out = dict(name=name, n=0, hist=collections.Counter(), fails=[], mismatches=[], truncated=False, infra=None)
+    drv = _W.get("drv")
+    for attempt in (0, 1):
+        try:
+            def on_exec(ex, choices):
+                check_execution(scn, ex, choices, drv, out)
+            n, more = explore(scn, _W["base"], bound, cap, on_exec)
+            out["truncated"] = more
+            break
+        except common.Infra as e:
+            out["infra"] = str(e)
+            break
+        except Exception:
+            # an exception of the harness itself (never of klongpy: those are results). Retry the
+            # scenario once from scratch; a second failure is an infrastructure error (exit 2).
+            import traceback
+            tb = traceback.format_exc()[-1500:]
+            if attempt == 1:
+                out["infra"] = "worker exception in scenario %s: %s" % (name, tb)
+            else:
+                out = dict(name=name, n=0, hist=collections.Counter(), fails=[], mismatches=[], truncated=False,
+                           infra=None, retried=tb)
+    out["hist"] = dict(out["hist"])
+    return out
+
+
+# --------------------------------------------------------------------------- entry points
+
+def _witnesses(ctx):
+    """replay the witness schedule of every known finding (and report which still reproduce)"""
+    import collections
+    base = ctx.mkdtemp()
+    drv = Driver("c18") if getattr(ctx, "driver_ok", True) else None
+    try:
+        for e in ctx.findings:
+            w = e.get("witness") or {}
+            if e.get("status") != "known" or "scenario" not in w:
+                continue
+            out = dict(n=0, hist=collections.Counter(), fails=[], mismatches=[])
+            ex = execute(w["scenario"], w["choices"], base)
+            check_execution(w["scenario"], ex, w["choices"], drv, out)
+            reproduced = any(f[0] == e["matcher"]["key"] for f in out["fails"])
+            ctx.extra.setdefault("witness_replay", {})[e["id"]] = "reproduced" if reproduced else "NOT reproduced"
+            _merge(ctx, out)
+    finally:
+        if drv:
+            drv.close()
+
+
+def _merge(ctx, out):
+    for k, v in out["hist"].items():
+        ctx.bump(k, v)
+    for key, case, expected, observed, what in out["fails"]:
+        ctx.oracle_fail(key, case, expected, observed, what)
+    for case, d in out["mismatches"]:
+        ctx.mismatch("Klong.C18.step vs FileCache under the recorded schedule", case, "machine", d)
+    if out.get("infra"):
+        raise common.Infra(out["infra"])
+
+
+def run(ctx):
+    import multiprocessing as mp
+    quick = ctx.tier == "quick"
+    ctx.rule = ("each evaluation = one complete interleaving (schedule) of a scenario on the real FileCache under the "
+                "cooperative scheduler, replayed into the Lean machine; scenarios: fixed core list (known-finding witnesses, "
+                "writer/writer, writer/reader, eviction, new file, oversize file), all two-thread pairs (thorough), and "
+                "seeded random scenarios of 2-3 client threads x 1-2 operations x 1-2 files with optional cache-priming setup; "
+                "schedules enumerated depth-first up to the preemption bound; distinct = distinct (scenario, choice list)")
+    ctx.assumptions += [
+        "step granularity: lock-protected block, task submission, exists/getsize, open-truncate, read, write, fsync, "
+        "future completion, future wait are atomic; CPython/OS preemption inside them is not explored",
+        "open(...,'rb') has no effect before its read; f.write is one step whose bytes are visible at once",
+        "eviction order of recover_memory (heapq over a list that is not re-heapified) is relational: any legal choice",
+        "PandasDataFrameCache.update (per-file append lock + retry loop) is explored by the oracle only (few scenarios, "
+        "no Lean machine: pickled frames are opaque); concurrent get_dataframe||update falls under the known get-miss||update class",
+    ]
+    ctx.partial += [
+        "lin_partial: proved for schedules in which no update/unload of a file takes the lock while a load of it is in "
+        "flight and no unload while a write of it is in flight; lin_full (all schedules) is refuted by four decide-checked "
+        "schedules (update during load, read between truncate and write, unload during load, unload during write)",
+    ]
+    import logging
+    logging.disable(logging.WARNING)
+    _witnesses(ctx)
+    jobs = []
+    if quick:
+        for name, scn in core_scenarios():
+            jobs.append((name, scn, 2, 800))
+        for i in range(28):
+            jobs.append((f"rnd{i}", random_scenario(ctx.rng), 2, 300))
+        for name, scn in df_scenarios():
+            jobs.append((name, scn, 1, 60))
+        jobs.sort(key=lambda j: -j[3])
+    else:
+        for name, scn in core_scenarios():
+            jobs.append((name, scn, 3, 30000))
+        for name, scn in pair_scenarios():
+            jobs.append((name, scn, 3, 6000))
+        for i in range(400):
+            jobs.append((f"rnd{i}", random_scenario(ctx.rng), 2, 2000))
+        for name, scn in df_scenarios():
+            jobs.append((name, scn, 2, 1500))
+        jobs.sort(key=lambda j: -j[3])           # big jobs first
+    base = ctx.mkdtemp()
+    nproc = max(2, min(8, (os.cpu_count() or 4) // 2))
+    ctxm = mp.get_context("fork")
+    truncated = 0
+    with ctxm.Pool(nproc, initializer=_winit, initargs=(base,)) as pool:
+        for out in pool.imap_unordered(work, jobs, chunksize=1):
+            _merge(ctx, out)
+            truncated += 1 if out["truncated"] else 0
+            if out.get("retried"):
+                ctx.extra.setdefault("worker_retries", []).append(out["retried"][-400:])
+            ctx.evaluations += out["n"]
+            ctx._distinct.update((out["name"], i) for i in range(out["n"]))
+            if len(ctx.samples) < 6 and out["n"]:
+                ctx.sample(dict(scenario=out["name"], schedules=out["n"], truncated=out["truncated"]))
+    ctx.extra["scenarios"] = len(jobs)
+    ctx.extra["scenarios_truncated_by_budget"] = truncated
+    ctx.extra["preemption_bound"] = 2 if quick else "3 (core, pairs) / 2 (random)"
+
+
+def replay(ctx, case):
+    c = case.get("case", case)
+    scn, choices = c["scenario"], c["choices"]
+    import collections
+    base = ctx.mkdtemp()
+    drv = Driver("c18") if getattr(ctx, "driver_ok", True) else None
+    try:
+        ex = execute(scn, choices, base)
+        out = dict(n=0, hist=collections.Counter(), fails=[], mismatches=[])
+        check_execution(scn, ex, choices, drv, out)
+        _merge(ctx, out)
+        ctx.evaluations += 1
+        print("replay: scenario", json.dumps(scn))
+        print("replay: schedule", [(st["tid"], st["label"]) for st in ex.trace])
+        print("replay: history ", [(h["tid"], h["op"], h["inv"], h["resp"], h["res"]) for h in ex.hist])
+        print("replay: final   ", dict(mem=ex.mem, entries=ex.entries, disk=ex.disk, status=ex.status))
+        print("replay: hazards ", hazards(ex, scn))
+        print("replay: oracle  ", oracle(ex, scn))
+        if drv:
+            print("replay: machine ", drv.ask(model_line(scn, ex)))
+    finally:
+        if drv:
+            drv.close()
